@@ -81,6 +81,13 @@ CHECKS = {
          'cubic discrepancy is the neglected rotation term), O(h^3) bounds for sinusoids; table structure (rows, index, dt bitwise, locality) for uniform and irregular stamps. Exploration.',
     note='Constants c calibrated on the unchanged tree with >=5x margin (recorded in the module); reference error estimated by step doubling each case.',
     design='DESIGN.md section 4, C15'),
+ 'C18': dict(
+    technique='property-based metamorphic and reference-model testing (own interpolation / shortest-arc / metre conversion), exact rational congruence check for angle reduction',
+    text='Generated table pairs by relation class (identical, nested, denser/sparser, offset, partial overlap; jittered stamps; column subsets/permutations/extras; headings wrapping at +-180), Series pairs and arbitrary finite angles in all container forms: '
+         'antisymmetry, self/sub-sample zero, result index/columns, values vs own reference, first-order recovery of perturbations on a ladder, resample_state row/linearity/shortest-arc/ordering, to_180_range range and exact congruence mod 360. Exploration. '
+         'One known finding (nested sub-sampling misjudged by the median-interval rule) is excluded by construction and reported as KNOWN-FINDING.',
+    note='Self-difference "exactly zero" judged within 64 ulp of column magnitudes; antisymmetry at +-180 modulo 360.',
+    design='DESIGN.md section 4, C18'),
 }
 NOT_YET = 'check not built yet in this session (planned, see DESIGN.md section 8); not claimed until its check exists'
 
